@@ -61,6 +61,11 @@ def make_cfg(case: dict[str, Any], mask: list[bool] | None, method: str) -> dict
         cfg["variables"]["mask"] = mask
     if case["assign"] is not None:
         cfg["gradient"]["samplers"] = case["assign"]
+    if case.get("ptypes") is not None:
+        cfg["gradient"]["perturbation_types"] = case["ptypes"]
+    for v in case.get("unbounded") or []:  # variables without an upper bound
+        if "upper_bounds" in cfg["variables"]:
+            cfg["variables"]["upper_bounds"] = [np.inf if i == v else b for i, b in enumerate(cfg["variables"]["upper_bounds"])]
     del n
     return cfg
 
@@ -82,7 +87,12 @@ def run_case(case: dict[str, Any]) -> dict[str, Any]:  # noqa: C901, PLR0912, PL
     if case["vscale"] is not None:
         transforms = OptModelTransforms(variables=VariableScaler(np.array(case["vscale"]), np.array(case["voff"])))
     scaled = transforms is not None
-    outer_cfg = EnOptConfig.model_validate(make_cfg(case, mask, case["method"]), context=transforms)
+    try:
+        outer_cfg = EnOptConfig.model_validate(make_cfg(case, mask, case["method"]), context=transforms)
+    except ValueError:
+        if case.get("ptypes") is not None and case.get("unbounded"):
+            return {"fun": 0, "grad": 0, "nested_runs": 0, "rejected": True}  # relative perturbation without finite bounds
+        raise
     inner_cfg = None
     if nested:
         inner_cfg = EnOptConfig.model_validate(make_cfg(case, [not m for m in free], "slsqp"), context=transforms)
@@ -243,6 +253,16 @@ def hypothesis_shard(item: dict[str, Any]) -> Collector:
             case["vscale"] = [draw(st.sampled_from([0.5, 2.0, 3.0, 10.0])) for _ in range(n)]
             case["voff"] = [draw(st.sampled_from([0.0, 0.3, -1.0])) for _ in range(n)]
         case["nested"] = draw(st.integers(0, 1)) == 0 and method in ("slsqp", "nelder-mead", "powell", "l-bfgs-b")
+        if draw(st.integers(0, 2)) == 0 and method not in ("de", "de-vec", "cobyla"):
+            # relative perturbations, and variables (free or fixed) without an upper bound: accepted only if consistent
+            case["ptypes"] = [draw(st.sampled_from([1, 2])) for _ in range(n)]
+            case["unbounded"] = sorted(draw(st.sets(st.integers(0, n - 1), max_size=2)))
+            fixed_vars = [i for i in range(n) if not mask[i]]
+            if fixed_vars and draw(st.booleans()):  # directed: only fixed variables are relative and unbounded
+                v = draw(st.sampled_from(fixed_vars))
+                case["unbounded"] = [v]
+                case["ptypes"] = [2 if (i == v or draw(st.booleans())) else 1 for i in range(n)]
+            case["nested"] = False
         case["script"] = [[draw(st.sampled_from(["f", "g"])), draw(st.integers(0, 2))] for _ in range(draw(st.integers(1, 8)))]
         case["script_points"] = [draw(st.sampled_from([-0.5, 0.0, 0.3, 0.8, 1.2])) for _ in range(3 * n)]
         return case
@@ -252,7 +272,8 @@ def hypothesis_shard(item: dict[str, Any]) -> Collector:
         fixed = case["n"] - sum(case["mask"])
         free = sum(case["mask"])
         col.case(case, nontrivial=fixed >= 1 and free >= 1 and (info["grad"] >= 1 or info["fun"] >= 3),  # noqa: PLR2004
-                 classes=(f"method={case['method']}", "nested" if info["nested_runs"] else "flat",
+                 classes=(f"method={case['method']}", "rejected-config" if info.get("rejected") else "accepted-config",
+                          "relative-perturbations" if case.get("ptypes") and 2 in case["ptypes"] else "absolute-perturbations", "nested" if info["nested_runs"] else "flat",
                           "scaled" if case["vscale"] else "unscaled", f"samplers={len(case['samplers'])}",
                           "start=argument" if case["start"] is not None else "start=config", f"fixed={fixed}"))
 
